@@ -378,64 +378,82 @@ func runService(r *ev.Run) {
 		{"no-head", `{"Body":{"Password":"svcpw"}}`, false},
 		{"non-json", `}{`, false},
 		{"array", `[]`, false},
+		// messages that leave fields out: whatever an earlier connection sent must not fill them in
+		{"empty-object", `{}`, false},
+		{"null", `null`, false},
+		{"type-only", `{"Head":{"Type":"Register"}}`, false},
+		{"empty-head-and-body", `{"Head":{},"Body":{}}`, false},
+		{"password-only-null-type", `{"Head":{"Type":null},"Body":{"Password":"svcpw"}}`, false},
 	}
 	agentMsg, _ := json.Marshal(map[string]any{"Head": map[string]any{"Type": "RegisterAgent"}, "Body": map[string]any{"Agent": map[string]any{
 		"Name": "evil", "MagicValue": "0x41414141", "Author": "x", "Description": "d", "Arch": []string{"x64"}, "Formats": []any{}, "SupportedOS": []string{"linux"}, "Commands": []any{}, "BuildingConfig": map[string]any{}}}})
 	lstMsg, _ := json.Marshal(map[string]any{"Head": map[string]any{"Type": "Listener"}, "Body": map[string]any{"Type": "ListenerAdd", "Listener": map[string]any{"Name": "evilproto", "Agent": "evil", "Items": []any{}}}})
 	exc2, _ := json.Marshal(map[string]any{"Head": map[string]any{"Type": "Listener"}, "Body": map[string]any{"Type": "ListenerAddExC2", "Listener": map[string]any{"Name": "ex", "Endpoint": "ep"}}})
 	seconds := []struct{ name, text string }{{"nothing", ""}, {"register-agent", string(agentMsg)}, {"register-listener", string(lstMsg)}, {"add-exc2", string(exc2)}}
-	for _, f := range firsts {
-		for _, s := range seconds {
-			ts := seam.New(seam.Options{Service: true})
-			svc := ts.T.Service
-			before := svcKey(ts, svc)
-			ws := fake.NewWS("S")
-			ws.SendText(f.text)
-			if s.text != "" {
-				ws.SendText(s.text)
-			}
-			ws.Raw.ClosePeer()
-			var pn any
-			var frame string
-			func() {
-				defer func() {
-					if p := recover(); p != nil {
-						pn = p
-						frame = seam.StackTop()
-					}
+	for _, prior := range []bool{false, true} {
+		for _, f := range firsts {
+			for _, s := range seconds {
+				ts := seam.New(seam.Options{Service: true})
+				svc := ts.T.Service
+				if prior {
+					// history: a legitimate service connection presented the password earlier and left
+					w0 := fake.NewWS("S0")
+					w0.SendText(reg("svcpw", "Register"))
+					w0.Raw.ClosePeer()
+					func() {
+						defer func() { recover() }()
+						svc.VerifHandleConnection(w0.Conn)
+					}()
+				}
+				before := svcKey(ts, svc)
+				ws := fake.NewWS("S")
+				ws.SendText(f.text)
+				if s.text != "" {
+					ws.SendText(s.text)
+				}
+				ws.Raw.ClosePeer()
+				var pn any
+				var frame string
+				func() {
+					defer func() {
+						if p := recover(); p != nil {
+							pn = p
+							frame = seam.StackTop()
+						}
+					}()
+					svc.VerifHandleConnection(ws.Conn)
 				}()
-				svc.VerifHandleConnection(ws.Conn)
-			}()
-			r.Eval(1)
-			detail := map[string]any{"first": f.name, "second": s.name}
-			if pn != nil && !f.ok {
-				r.Violate("service-preauth-panic/"+frame+"/"+ev.Normalize(fmt.Sprint(pn)), fmt.Sprintf("service first message %q crashes the handler: %v", f.name, pn), detail)
-			}
-			after := svcKey(ts, svc)
-			if !f.ok {
-				if after != before {
-					r.Violate("service-preauth-dispatch/"+s.name, fmt.Sprintf("service connection with first message %q had its %q message dispatched", f.name, s.name), map[string]any{"first": f.name, "second": s.name, "before": before, "after": after})
+				r.Eval(1)
+				detail := map[string]any{"first": f.name, "second": s.name, "after_an_earlier_legitimate_connection": prior}
+				if pn != nil && !f.ok {
+					r.Violate("service-preauth-panic/"+frame+"/"+ev.Normalize(fmt.Sprint(pn)), fmt.Sprintf("service first message %q crashes the handler: %v", f.name, pn), detail)
 				}
-				frames, _ := ws.Frames()
-				nf := 0
-				for _, fr := range frames {
-					if fr.Opcode == 8 {
-						continue
+				after := svcKey(ts, svc)
+				if !f.ok {
+					if after != before {
+						r.Violate("service-preauth-dispatch/"+s.name+map[bool]string{false: "", true: "/after-a-legitimate-connection"}[prior], fmt.Sprintf("service connection with first message %q had its %q message dispatched", f.name, s.name), map[string]any{"first": f.name, "second": s.name, "after_an_earlier_legitimate_connection": prior, "before": before, "after": after})
 					}
-					nf++
-					var m map[string]map[string]any
-					if json.Unmarshal(fr.Payload, &m) != nil || m["Body"]["Success"] != false {
-						r.Violate("service-preauth-frames", fmt.Sprintf("unauthenticated service connection received %s", trunc(string(fr.Payload))), detail)
+					frames, _ := ws.Frames()
+					nf := 0
+					for _, fr := range frames {
+						if fr.Opcode == 8 {
+							continue
+						}
+						nf++
+						var m map[string]map[string]any
+						if json.Unmarshal(fr.Payload, &m) != nil || m["Body"]["Success"] != false {
+							r.Violate("service-preauth-frames", fmt.Sprintf("unauthenticated service connection received %s", trunc(string(fr.Payload))), detail)
+						}
 					}
+					if nf > 1 {
+						r.Violate("service-preauth-frames", "unauthenticated service connection received more than one frame", detail)
+					}
+					r.Outcome("service/rejected/" + s.name)
+				} else {
+					r.Outcome(fmt.Sprintf("service/accepted/%s/changed=%v", s.name, after != before))
 				}
-				if nf > 1 {
-					r.Violate("service-preauth-frames", "unauthenticated service connection received more than one frame", detail)
-				}
-				r.Outcome("service/rejected/" + s.name)
-			} else {
-				r.Outcome(fmt.Sprintf("service/accepted/%s/changed=%v", s.name, after != before))
+				ts.Close()
 			}
-			ts.Close()
 		}
 	}
 }
